@@ -138,7 +138,7 @@ theorem node_flat : ∀ (n : Node) (cwd : String) (r : Bool),
     rw [rejoin_S, nodes_flat cmds cwd r]
   | .list parts, cwd, r => by
     simp only [aNode, flat, World.syn_resolveCd]
-    rw [rejoin_S, listParts_flat parts _ r]
+    rw [rejoin_S, listPartsCd_flat parts _ _ r]
   | .ifN c t e rs, cwd, r => by
     simp only [aNode, flat, combine_S, S_append, S_cons, S_nil, L_append]
     rw [node_flat c cwd r, node_flat t cwd r, optNode_flat e cwd r, redirects_flat rs cwd r]
@@ -208,6 +208,16 @@ theorem listParts_flat : ∀ (ns : List Node) (cwd : String) (r : Bool),
     · exact listParts_flat ns cwd r
     · simp only [S_cons, L_append]
       rw [node_flat n cwd r, listParts_flat ns cwd r]
+
+theorem listPartsCd_flat : ∀ (ns : List Node) (cwd0 cwd : String) (r : Bool),
+    S (aListPartsCd w rec h ns cwd0 cwd r) = L w rec h (flatListPartsCd w.syn ns cwd0 cwd r)
+  | [], _, _, _ => by simp [aListPartsCd, flatListPartsCd]
+  | n :: ns, cwd0, cwd, r => by
+    simp only [aListPartsCd, flatListPartsCd]
+    split
+    · exact listPartsCd_flat ns cwd0 cwd r
+    · simp only [S_cons, L_append]
+      rw [node_flat n cwd0 r, listParts_flat ns cwd r]
 
 theorem optNode_flat : ∀ (e : Option Node) (cwd : String) (r : Bool),
     S (aOptNode w rec h e cwd r) = L w rec h (flatOptNode w.syn e cwd r)
